@@ -240,6 +240,40 @@ def run(chk: common.Check):
     chk.corr_stats["init_group/use_in_calculations ~ model"] = {"runs": len(fmeta), "groups": ngr, "disagreements": len(fdis)}
     chk.cov["traces_validated_against_impl"] += len(fmeta)
     chk.sample({"cases": [c[0] for c in cases]})
+    # ------------------------------------------------------------ one invocation, several structures, one list naming residues of each
+    import os, shutil, subprocess, sys, tempfile
+    from vlib.purejob import strip_date
+    hl = [l for l in structures.read("1HPX.pdb").splitlines() if l[:6] == "ATOM  " and int(l[22:26]) <= 30]
+    xs = "\n".join(l for c in ("A", "B") for l in [x for x in hl if x[21] == c] + ["TER"]) + "\nEND\n"
+    ys = structures.read("3SGB-subset.pdb")
+    lst = "A:25,B:8,B:21,E:29,E:57,E:102,I:10,I:18,Z:999"
+    dd = tempfile.mkdtemp(dir="/var/tmp")
+    try:
+        open(os.path.join(dd, "x.pdb"), "w").write(xs)
+        open(os.path.join(dd, "y.pdb"), "w").write(ys)
+        env = dict(os.environ, PYTHONPATH=str(common.REPO), PYTHONHASHSEED="0")
+
+        def cli(args):
+            for f in ("x.pka", "y.pka"):
+                if os.path.exists(os.path.join(dd, f)):
+                    os.unlink(os.path.join(dd, f))
+            pr = subprocess.run([sys.executable, "-m", "propka", "--quiet", "-i", lst] + args, cwd=dd, env=env, capture_output=True, text=True, timeout=600)
+            return {f: strip_date(open(os.path.join(dd, f)).read()) for f in ("x.pka", "y.pka") if os.path.exists(os.path.join(dd, f))}, pr
+        solo = {}
+        for f in ("x", "y"):
+            o, pr = cli([f + ".pdb"])
+            solo[f + ".pka"] = o.get(f + ".pka")
+        for order in (["x.pdb", "y.pdb"], ["y.pdb", "x.pdb"]):
+            o, pr = cli(["-f"] + order)
+            chk.count(1, key=("cli-two-inputs", tuple(order)))
+            for f in ("x.pka", "y.pka"):
+                if o.get(f) != solo[f]:
+                    found.append(("list-depends-on-other-inputs", f"`-i {lst} -f {' '.join(order)}`: {f} differs from the run with that input alone and the same list"
+                                  + (f" (exit {pr.returncode}: {pr.stderr[-200:]})" if pr.returncode else ""), {"list": lst, "order": order, "file": f}))
+                    break
+    finally:
+        shutil.rmtree(dd, ignore_errors=True)
+
     uniq = {}
     for sig, what, rep in found:
         uniq.setdefault(sig, (sig, what, rep))
